@@ -50,7 +50,7 @@ ASSUMPTIONS = [
     "calls whose format and arguments disagree are only required not to raise",
     "logging.raiseExceptions keeps its default; the capturing handler does not format at emit time, formatting is attempted by the monitor",
 ]
-MINIMUMS = {"monitor:delivered": 10000, "monitor:tagged": 8000, "monitor:trace-id": 3000, "inherited_trace_ids": 1000, "calls_with_args_under_percent_names": 300, "own_logger_below_root": 500, "calls_outside_scope": 500, "spawned_task_calls": 300, "monitor:unique-identifier": 3000, "forests_with_absorbed_exceptional_exits": 100, "forests_under_a_stamping_log_record_factory": 100, "calls_made_by_resources_while_released": 100}
+MINIMUMS = {"monitor:delivered": 10000, "monitor:tagged": 8000, "monitor:trace-id": 3000, "inherited_trace_ids": 1000, "calls_with_args_under_percent_names": 300, "own_logger_below_root": 500, "calls_outside_scope": 500, "spawned_task_calls": 300, "monitor:unique-identifier": 3000, "forests_with_absorbed_exceptional_exits": 100, "forests_under_a_stamping_log_record_factory": 100, "calls_made_by_resources_while_released": 100, "fresh_trace_ids_after_reseeding_the_random_module": 500}
 JOBS = {"quick": 4, "thorough": 16}
 LEVEL_TEXT = (
     "All forests of up to 3 nodes x {own logger?} x {own trace id?} per node with rotating name classes, and sampled forests up to 2 x 5 nodes, are executed with log calls of every level, "
@@ -142,6 +142,13 @@ def run_once(prog: list[dict[str, Any]], chooser: Chooser, stamping_factory: boo
 
     if stamping_factory:
         logging.setLogRecordFactory(stamping)
+    if RUNS["n"] % 2:
+        # a reproducible job: the application seeds the process-wide random generator before it starts (simulations, sampling, tests
+        # seeding per example) - what its scopes are called is none of that generator's business
+        random.seed(20240101)
+        RUNS["reseeded"] = True
+    else:
+        RUNS["reseeded"] = False
 
     async def main(loop: Any) -> None:
         W: World = loop.W
@@ -202,6 +209,7 @@ def log_steps(steps: list[dict[str, Any]], task: str, out: dict[int, tuple[dict[
 
 
 RESOURCE_LOGS: set[int] = set()  # ids of log calls made by resources while they are released
+FRESH_TRACE_IDS: dict[str, str] = {}  # every trace id this worker has seen an outermost scope come up with
 SEEN_IDS: dict[str, tuple[int, str]] = {}  # every scope identifier this worker process has ever seen -> (forest number, scope)
 RUNS = {"n": 0}
 
@@ -253,8 +261,14 @@ def judge(R: Recorder, forest: list[dict[str, Any]], prog: list[dict[str, Any]],
             ok, detail = tid == pm.trace_id, f"nested scope {name} without own trace id reports {tid!r}, enclosing scope {parent} has {pm.trace_id!r}"
             inherited += 1
         else:
-            ok, detail = isinstance(tid, str) and len(tid) > 0 and tid not in root_ids, f"outermost scope {name} has trace id {tid!r}; other outermost ids {root_ids}"
+            earlier_fresh = FRESH_TRACE_IDS.get(tid)
+            ok, detail = isinstance(tid, str) and len(tid) > 0 and tid not in root_ids and earlier_fresh is None, (
+                f"outermost scope {name} has trace id {tid!r}; other outermost ids {root_ids}; an earlier forest of this worker got the same one: {earlier_fresh} "
+                f"(process-wide random generator re-seeded before this forest: {RUNS.get('reseeded')})")
             root_ids.append(tid)
+            if isinstance(tid, str):
+                FRESH_TRACE_IDS[tid] = f"forest #{RUNS['n'] + 1} scope {name}"
+            R.count("fresh_trace_ids_after_reseeding_the_random_module", bool(RUNS.get("reseeded")))
         R.monitor("trace-id", ok, where={**where, "kind": "trace-id-not-inherited" if (parent is not None and not b.get("trace_id")) else "trace-id-wrong"}, detail=detail, case=rec)
     R.count("inherited_trace_ids", inherited)
     if any(t.get("exits") and any(t["exits"]) for t in forest):
